@@ -468,14 +468,19 @@ func (x *Exec) doReturn(st *State, vals []Val, pos token.Pos) {
 		}
 		ct := cenv.evalBool(ck.Cl.E)
 		ost := st
+		cgoal := ct
 		if len(ck.By) > 0 {
 			// explicit lemma applications: hypotheses of this check only
 			ost = st.clone()
+			benv, g2 := x.openForall(cenv, ck.Cl.E)
+			if g2 != nil {
+				cgoal = g2
+			}
 			for _, call := range ck.By {
-				ost.assume(x.lemmaInstance(cenv, call))
+				ost.assume(x.lemmaInstance(benv, call))
 			}
 		}
-		x.oblige(ost, "check", fmt.Sprintf("%s@ret%d", label, rn), ct, pos, ck.Cl.Src)
+		x.oblige(ost, "check", fmt.Sprintf("%s@ret%d", label, rn), cgoal, pos, ck.Cl.Src)
 		// asserted, hence available to the later checks and to the
 		// postconditions at this return
 		st.assume(ct)
